@@ -189,6 +189,22 @@ def as_given(c, args):
 
 
 def check_sh(c, st):
+    # the quoting is for a POSIX shell whatever the user's login shell / environment happens to be
+    if c.get('env') is not None and not c.get('_env_applied'):
+        saved = {k: os.environ.get(k) for k in c['env']}
+        try:
+            for k, v in c['env'].items():
+                if v is None:
+                    os.environ.pop(k, None)
+                else:
+                    os.environ[k] = v
+            return check_sh(dict(c, _env_applied=True), st)
+        finally:
+            for k, v in saved.items():
+                if v is None:
+                    os.environ.pop(k, None)
+                else:
+                    os.environ[k] = v
     su = common.load('strutils')
     lists = c['lists']
     lines = []
@@ -398,7 +414,13 @@ def rlist(r):
 def gen(r):
     x = r.random()
     if x < 0.25:
-        return {'kind': 'sh', 'lists': [rlist(r) for _ in range(60)], 'strsub': r.random() < 0.25}
+        c = {'kind': 'sh', 'lists': [rlist(r) for _ in range(60)], 'strsub': r.random() < 0.25}
+        if r.random() < 0.35:
+            c['env'] = r.choice([{'SHELL': '/usr/bin/fish'}, {'SHELL': '/bin/zsh'}, {'SHELL': ''}, {'SHELL': None},
+                                 {'SHELL': '/bin/csh'}, {'SHELL': 'C:\\Windows\\System32\\cmd.exe', 'COMSPEC': 'cmd.exe'},
+                                 {'SHELL': '/usr/bin/pwsh', 'TERM': 'dumb'}, {'IFS': ',', 'SHELL': '/bin/dash'},
+                                 {'LC_ALL': 'C', 'LANG': 'C'}, {'POSIXLY_CORRECT': '1'}])
+        return c
     if x < 0.5:
         return {'kind': 'cmd', 'lists': [rlist(r) for _ in range(60)], 'strsub': r.random() < 0.25}
     if x < 0.93:
